@@ -998,7 +998,7 @@ func (h *c15Hist) scripted() error {
 		func() error { return h.step(mk("Init", 1, false)) }, // record exists
 		func() error { return h.step(mk("Init", 1, true)) },  // the same account under the other spelling: a second record, a second collateral
 		func() error { return h.step(price(10_000_000)) },
-		func() error { return h.step(price(1)) }, // refused by validateCollateralPrice
+		func() error { return h.step(price(1)) },                 // refused by validateCollateralPrice
 		func() error { return h.step(mk("Shutdown", 2, false)) }, // a stranger without a record
 		func() error { return h.step(mk("Shutdown", 3, true)) },  // account 3's other spelling owns nothing
 		func() error { return h.step(mk("Shutdown", 1, false)) }, // gets back P, not the current price
